@@ -436,6 +436,9 @@ func (h *harness) do(line string) {
 		o.lines = nil
 		o.newProcess(nil)
 		op := fmt.Sprintf("reset full=%s q=%d", b01(full), share.Quorum)
+		if a["fix"] == "1" || os.Getenv("VERIF_HEIGHTS_FIX") == "1" {
+			op += " fix=1" // tells the model driver to use the model of the REPAIRED code (manual experiments only)
+		}
 		o.lines = append(o.lines, op)
 		run.Tag("reset:full=" + b01(full))
 		h.emit(op, "ready")
@@ -510,6 +513,7 @@ func (h *harness) do(line string) {
 			inHist = err == nil && si != nil
 		}
 		rel := sign(ht - int(n.ctrl.Height))
+		heightBefore := int(n.ctrl.Height)
 		var out string
 		if a["via"] == "r" {
 			if err := n.run.ProcessConsensus(logger, msg); err != nil {
@@ -530,9 +534,22 @@ func (h *harness) do(line string) {
 		}
 		if ok && isDecided {
 			o.seen[ht] = true
-			if !inMem && inHist && n.ctrl.StoredInstances.FindInstance(specqbft.Height(ht)) == nil {
+			reloaded := !inMem && inHist && n.ctrl.StoredInstances.FindInstance(specqbft.Height(ht)) == nil
+			if reloaded {
 				o.reloadLearned[ht] = true
 				run.Tag("decided:reloaded-from-history")
+			}
+			// "save as highest only if height >= current": a valid decided message at or above the controller height must
+			// end up as the stored highest (otherwise the highest decided instance cannot survive a restart)
+			if ht >= heightBefore {
+				if hi := n.highest(); hi == nil || int(hi.State.Height) < ht {
+					sig := "C15/top-decided-not-stored-as-highest"
+					if reloaded {
+						sig = "C15/top-decided-not-stored-after-full-node-storage-reload"
+					}
+					run.Violate(sig, fmt.Sprintf("valid decided message for height %d (controller height was %d) is not reflected in the highest record %s",
+						ht, heightBefore, storedStr(hi)), o.replay()...)
+				}
 			}
 		}
 		run.Tag("decided:" + out)
